@@ -307,6 +307,17 @@ def audit(ctx, f, recv):
                         ge_edge = ft if op == "Gt" else (tt if op == "Le" else None)
                     if ge_edge is not None and k >= ke and mir.block_dominates(recv, ge_edge, c.b):
                         ok, why = True, "under the `len >= %d` edge of a test of the same container" % k
+            # G6: a dominating comparison of the bound with the container's own length implies bound <= len
+            if not ok and ke is None:
+                el = mir.root_local(recv, end)
+                for sb, op, l, r, tt, ft, ln in mir.cmp_switches(recv):
+                    edge = None
+                    if mir.root_local(recv, l) == el and [x for x in sources(recv, r).calls if x in lens] and not sources(recv, r).binops:
+                        edge = {"Gt": ft, "Le": tt, "Lt": tt, "Ge": None, "Eq": tt}.get(op)
+                    elif mir.root_local(recv, r) == el and [x for x in sources(recv, l).calls if x in lens] and not sources(recv, l).binops:
+                        edge = {"Lt": ft, "Ge": tt, "Gt": tt, "Le": None, "Eq": tt}.get(op)
+                    if edge is not None and mir.block_dominates(recv, edge, c.b):
+                        ok, why = True, "under the `bound <= %s.len()` edge of a dominating comparison (line %d)" % (pid_str(recv, cont), ln)
             # G4: bound is a summand of the total the buffer was resized to
             if not ok and ke is None:
                 el = mir.root_local(recv, end)
